@@ -266,6 +266,22 @@ proof! {
 	}
 }
 
+proof! {
+	fn pow_primary_secondary_predicates() {
+		// which proofs count as primary / secondary PoW, per chain type (read-time header rule)
+		use grin_core::pow::{Proof, ProofOfWork};
+		let ct = env::any_chain_type();
+		env::set_chain_type(ct);
+		let eb: u8 = nd::any();
+		let pow = ProofOfWork { total_difficulty: Difficulty::from_num(1), secondary_scaling: nd::any(), nonce: nd::any(), proof: Proof { edge_bits: eb, nonces: vec![] } };
+		let min = match ct { ChainTypes::AutomatedTesting => 10, ChainTypes::UserTesting => 15, _ => 31 };
+		check!(pow.is_secondary() == (eb == 29), "secondary PoW is exactly edge_bits 29");
+		check!(pow.is_primary() == (eb != 29 && eb >= min), "primary PoW is any other size from the chain's minimum up");
+		check!(pow.edge_bits() == eb, "edge_bits accessor");
+		core::mem::forget(pow);
+	}
+}
+
 pub const HARNESSES: &[(&str, fn())] = &[
 	("c04::dma_total_floor", dma_total_floor),
 	("c04::next_difficulty_dispatch", next_difficulty_dispatch),
@@ -278,4 +294,5 @@ pub const HARNESSES: &[(&str, fn())] = &[
 	("c04::header_version_u16_wrap", header_version_u16_wrap),
 	("c04::graph_weight_no_overflow", graph_weight_no_overflow),
 	("c04::secondary_pow_ratio_schedule", secondary_pow_ratio_schedule),
+	("c04::pow_primary_secondary_predicates", pow_primary_secondary_predicates),
 ];
